@@ -523,7 +523,8 @@ def composite_replay(cls_name):
                 return ('7', barcode, 0) if alias == tx_alias else (None, None, None)
         s2 = getattr(dm, cls_name)(barcodeFileParser=TxOnly(), indexFileParser=None, indexFileAlias=None)
         tx_rows = []
-        for ins in ('', 'T', 'TT', 'TTTA', 'TTTT'):
+        base_drop = None       # bases the strategy takes off read 1 before the insert (measured on an insert without leading T)
+        for ins in ('ACG', '', 'T', 'TT', 'TTTA', 'TTTT', 'TNTA', 'NAT', 'TTNCA', 'TTTTTTTTTTTT'):
             seq1 = 'ACGTTGCAAGGCTA' + ins
             q1 = ''.join(chr(40 + i) for i in range(len(seq1)))
             recs2 = [fq.FastqRecord('@NS500:1:FC:1:11101:100:200 1:N:0:ACGT', seq1, '+', q1),
@@ -532,11 +533,18 @@ def composite_replay(cls_name):
                 o2 = s2.demultiplex(recs2)
             except Exception as e:      # noqa
                 tx_rows.append({'insert': ins, 'raised': type(e).__name__})
+                if type(e).__name__ != 'NonMultiplexable':
+                    # the loader writes a pair that ends in any other exception to neither output
+                    failed.append({'clause': 'raises.only', 'insert': ins, 'raised': type(e).__name__})
                 continue
             es, eq = o2[0].sequence, o2[0].qualities
             tx_rows.append({'insert': ins, 'sequence': es, 'qualities': eq})
-            if len(es) != len(eq) or not seq1.endswith(es) or (es and q1[len(q1) - len(es):] != eq):
-                failed.append({'clause': 'transcriptome_pair_pruned_of_leading_T', 'insert': ins, 'sequence': es, 'qualities': eq})
+            if base_drop is None:
+                base_drop = len(seq1) - len(es)
+            pruned = seq1[min(base_drop, len(seq1)):len(seq1) - len(es)]
+            if len(es) != len(eq) or not seq1.endswith(es) or (es and q1[len(q1) - len(es):] != eq) or set(pruned) - {'T'}:
+                failed.append({'clause': 'transcriptome_pair_pruned_of_leading_T', 'insert': ins, 'sequence': es, 'qualities': eq,
+                               'pruned_besides_the_prefix': pruned})
         obs['value']['transcriptome_only_pairs'] = tx_rows
         if not (isinstance(out, list) and len(out) == 2):
             failed.append({'clause': 'one_output_per_mate', 'returned': shape})
